@@ -114,11 +114,13 @@ PROPS['C10'] = dict(
     need_counters=['reads_timeout', 'reads_data', 'parked_reads', 'scripts_vnet', 'scripts_udp', 'scripts_bridge', 'scripts_dpipe', 'scripts_buffer'],
 )
 PROPS['C17'] = dict(
-    level='exploration', builds={'ctxio_race': dict(pkg='./cmd/ctxio', overlay='shim', race=True)},
+    level='exploration', builds={'ctxio_race': dict(pkg='./cmd/ctxio', overlay='shim', race=True), 'ctxsched': dict(pkg='./cmd/ctxsched', overlay='yield')},
     stages=[dict(name='ctxio@timer%d' % m, bin='ctxio_race', shards=shards(2, 6), par=4, env={'GODEBUG': 'asynctimerchan=%d' % m},
                  crash_is_violation=True, crash_key='ctxio:crash', timeout=1800, replay='rerun') for m in (1, 0)],
-    need_counters=['reads_cancelled', 'writes_cancelled', 'reads_probe', 'writes_probe', 'stream_bytes', 'datagrams'],
+    need_counters=['reads_cancelled', 'writes_cancelled', 'reads_probe', 'writes_probe', 'stream_bytes', 'datagrams', 'probes_checked', 'dfs_schedules'],
 )
+PROPS['C17']['stages'].append(dict(name='sched', bin='ctxsched', shards=shards(4, 8), par=8, timeout=1800, group='gsched'))
+PROPS['C17']['replay_stage'] = 'ctxio@timer1'
 
 PROPS['C11'] = dict(
     level='exploration', builds={'udpdemux_race': dict(pkg='./cmd/udpdemux', overlay='shim', race=True)},
